@@ -3,6 +3,7 @@ import VlsModel.Gen.HmacFn
 import VlsModel.Gen.FnPersistMod
 import VlsModel.Gen.FnPersistMut
 import VlsModel.Gen.FnPersistDflt
+import VlsModel.Gen.FnLssFrontErr
 import VlsModel.Gen.FnHmacRs
 import VlsModel.Gen.FnLssUtil
 import VlsModel.Gen.FnLssFront
@@ -809,5 +810,34 @@ theorem C17_fn_dummy_get_channel {S P I E : Type} (s : S) (n : P) (i : I) :
     Gen.FnPersistDflt.DummyPersister.get_channel (ChannelEntry := E) s n i = .error (.err "Error::Internal") := rfl
 example : Gen.FnPersistDflt.Persist.put_batch_unlogged () [("a", (0, [1]))] = .error .panic :=
   C17_fn_persist_default_put_batch_unlogged () _
+
+/-! ## Round 10 (b7): how an integrity failure of the LSS client surfaces in the front end (`impl From<ClientError> for Error`,
+`vls-frontend/src/external_persist/lss.rs`, `Gen/FnLssFrontErr.lean`; `ClientError` is read from the current
+`lightning-storage-server/lib/src/client/driver.rs`)
+
+A value or a server reply that failed its HMAC check is **never** reported as "not available" (which callers may
+retry or ignore) nor as a conflict: exactly `InvalidHmac` and `InvalidServerHmac` become `NotAuthorized`; transport and
+format failures become `NotAvailable`; a put conflict keeps its keys, in order, with the `u64` bit pattern of the
+version.  (The payload type of `Connect` is printed as the local `Error` by the translator — a name clash with
+`transport::Error`; the payload is only logged and the theorem quantifies over it.) -/
+open VlsModel.Gen.FnLssFrontErr in
+theorem C17_fn_frontend_error_from {S : Type} (e : ClientError S) :
+    Error.«from» e = match e with
+      | .InvalidHmac _ _ => Error.NotAuthorized
+      | .InvalidServerHmac => Error.NotAuthorized
+      | .Connect _ => Error.NotAvailable
+      | .Tonic _ => Error.NotAvailable
+      | .InvalidResponse => Error.NotAvailable
+      | .PutConflict c => Error.Conflicts (c.map (fun kv => (kv.1, Rs.utruncI Rs.U64_MAX kv.2.version))) := by
+  cases e <;> rfl
+
+open VlsModel.Gen.FnLssFrontErr in
+/-- the integrity failures are exactly the inputs that yield `NotAuthorized` -/
+theorem C17_fn_frontend_error_from_not_authorized {S : Type} (e : ClientError S) :
+    Error.«from» e = Error.NotAuthorized ↔ (∃ k v, e = .InvalidHmac k v) ∨ e = .InvalidServerHmac := by
+  cases e <;> simp [Error.«from»]
+
+open VlsModel.Gen.FnLssFrontErr in
+example : Error.«from» (Status := Unit) (.InvalidHmac "k" (-1)) = Error.NotAuthorized := rfl
 
 end VlsModel.Props.C17Fn
